@@ -2,7 +2,7 @@
 # developer tool: run all quick checks against every property-preserving change under safe_changes/ (3 in parallel)
 cd "$(dirname "$(readlink -f "$0")")"
 list="${@:-$(ls safe_changes)}"
-run_one() { d=$1; slot=$2; SAFE_TARGET=/tmp/safetest-target-$$-$slot SAFE_KEEP=/tmp/safetest-keep ./safetest safe_changes/$d/patch.diff 2>&1 | tail -1; }
+run_one() { d=$1; slot=$2; SAFE_TARGET=/tmp/safetest-target-$$-$slot SAFE_KEEP=/tmp/safetest-keep ./safetest safe_changes/$d/patch.diff ${SAFE_PROPS:-} 2>&1 | tail -1; }
 i=0
 for d in $list; do
   run_one $d $((i%3)) &
